@@ -63,7 +63,12 @@ def _field_kinds(ctx: Ctx, c: ClassInfo) -> dict[str, str]:
     return out
 
 
+_HELPER_KINDS: dict[str, str] = {}
+
+
 def _conv_kind(e: ast.AST) -> str:
+    if isinstance(e, ast.Call) and isinstance(e.func, ast.Name) and e.func.id in _HELPER_KINDS:
+        return _HELPER_KINDS[e.func.id]
     if isinstance(e, ast.Call):
         d = dotted(e.func) or ""
         if d.endswith("datetime.fromisoformat"):
@@ -76,9 +81,45 @@ def _conv_kind(e: ast.AST) -> str:
     return "other:" + unparse(e)[:50]
 
 
-def _decode_table(f: FuncInfo) -> dict[str, str]:
-    """key -> conversion kind, from `loaded[<key>] = <conv>` assignments and the tests that guard them."""
+def _ref_kind(e: ast.AST) -> str:
+    """conversion kind of a callable reference used in a decoder lookup table"""
+    d = dotted(e) or ""
+    if d.endswith("datetime.fromisoformat"):
+        return "datetime"
+    if d in _HELPER_KINDS:
+        return _HELPER_KINDS[d]
+    if d.endswith(".decode"):
+        return "nested:" + d.split(".")[-2]
+    return "other:" + unparse(e)[:40]
+
+
+def _register_module_helpers(m) -> None:
+    """module-level one-expression converters (`def _timedelta_from_seconds(v): return timedelta(seconds=float(v))`)"""
+    _HELPER_KINDS.clear()
+    for name, fn in m.functions.items():
+        rets = [r for r in ast.walk(fn.node) if isinstance(r, ast.Return) and r.value is not None]
+        if len(rets) == 1 and len(fn.params()) == 1:
+            k = _conv_kind(rets[0].value)
+            if not k.startswith("other:"):
+                _HELPER_KINDS[name] = k
+
+
+def _decode_table(f: FuncInfo, helpers=()) -> dict[str, str]:
+    """key -> conversion kind, from `loaded[<key>] = <conv>` assignments and the tests that guard them (also inside helper functions
+    that restore fields in place, and through `{key: converter}` lookup tables)."""
     table: dict[str, str] = {}
+    # lookup tables: {"k": converter, ...} indexed by the loop key
+    for n in ast.walk(f.node):
+        if isinstance(n, ast.Dict) and n.keys and all(isinstance(k, ast.Constant) and isinstance(k.value, str) for k in n.keys) \
+                and all(isinstance(v, (ast.Name, ast.Attribute)) for v in n.values):
+            names = {t.id for a in ast.walk(f.node) if isinstance(a, ast.Assign) and a.value is n for t in a.targets if isinstance(t, ast.Name)}
+            used = any(isinstance(c, ast.Call) and isinstance(c.func, ast.Attribute) and c.func.attr == "get" and dotted(c.func.value) in names for c in ast.walk(f.node)) or \
+                any(isinstance(s_, ast.Subscript) and dotted(s_.value) in names for s_ in ast.walk(f.node))
+            if used:
+                for k, v in zip(n.keys, n.values):
+                    table[k.value] = _ref_kind(v)
+    for h in helpers:
+        table.update(_decode_table(h))
 
     def keys_of_test(t: ast.AST, keyvar: str) -> list[str]:
         out = []
@@ -133,7 +174,8 @@ def codec(ctx: Ctx, rule="R-C07-CODEC") -> None:
         n += 1
         kinds = _field_kinds(ctx, c)
         dec = ctx.func(f"{q}.decode")
-        table = _decode_table(dec)
+        _register_module_helpers(dec.module)
+        table = _decode_table(dec, [h for h in C.helper_callees(ctx, dec) if h.cls is None])
         ctx.check(table == kinds, rule, dec, f"{c.name}.decode converts exactly the non-JSON-native fields", f"{kinds}",
                   f"{c.name}: fields needing conversion by type are {kinds} but decode converts {table}: "
                   f"{sorted(set(kinds) - set(table))} stay raw JSON values / {sorted(set(table) - set(kinds))} are converted without need / kinds differ",
